@@ -4,7 +4,7 @@ AllFormats == {"delimited", "fixed", "excel", "ods"}
 FieldTags == {"kw", "digit", "blank", "nonascii", "emptyname", "badmark", "unknowntype", "nottype", "badlength", "lengthorder",
               "neglength", "fixed:nolength", "fixed:range", "fixed:zero", "intrule", "intlength", "choicecomma", "choiceempty",
               "constx", "regex", "example", "examplelength"}
-CheckTags == {"emptydesc", "unknowntype", "emptytype", "u:undeclared", "u:empty", "u:dup", "u:comma", "d:undeclared", "d:notbool",
+CheckTags == {"emptydesc", "unknowntype", "emptytype", "desconly", "u:undeclared", "u:empty", "u:dup", "u:comma", "d:undeclared", "d:notbool",
               "d:syntax"}
 AllDeco == SUBSET {"comments", "blanks", "late"}
 NoDeco == {{}}
